@@ -28,6 +28,8 @@ type Operand struct {
 	Expr    ast.Expr
 	ImmExpr ast.Expr
 	DispExp ast.Expr
+	BaseExp ast.Expr // mem: base register expression (for parameters bound at inlining time)
+	IdxExp  ast.Expr // mem: index register expression
 }
 
 func (o Operand) String() string {
@@ -139,6 +141,7 @@ func (m emitModel) operand(e ast.Expr, depth int) Operand {
 			b := m.operand(x.Args[0], depth+1)
 			op.Kind = "mem"
 			op.Reg = b.Reg
+			op.BaseExp = x.Args[0]
 			op.DispExp = x.Args[1]
 			op.Disp, op.DispOK = m.p.ConstInt(x.Args[1])
 			op.Objs = m.objsIn(x.Args[1])
@@ -148,6 +151,7 @@ func (m emitModel) operand(e ast.Expr, depth int) Operand {
 			i := m.operand(x.Args[1], depth+1)
 			op.Kind = "mem"
 			op.Reg, op.Index = b.Reg, i.Reg
+			op.BaseExp, op.IdxExp = x.Args[0], x.Args[1]
 			op.DispExp = x.Args[3]
 			op.Disp, op.DispOK = m.p.ConstInt(x.Args[3])
 			op.Objs = m.objsIn(x.Args[3])
